@@ -37,8 +37,14 @@ def _check_loops_from_task(task: Task, visited_tasks: Set[int], validated: Set[i
 
     visited_tasks.add(task.id)
 
+    # Task waits for its predecessors, for predecessors of all its parents and (summary task) for its children
     for s in task.predecessors:
         _check_loops_from_task(s, visited_tasks, validated)
+    for p in task.all_parents:
+        for s in p.predecessors:
+            _check_loops_from_task(s, visited_tasks, validated)
+    for ch in task.children:
+        _check_loops_from_task(ch, visited_tasks, validated)
 
     visited_tasks.remove(task.id)
     validated.add(task.id)
